@@ -6,6 +6,8 @@ package orda
 // at mutex operations, with a bounded number of preemptions.
 
 import (
+	"errors"
+
 	"github.com/orda-io/orda/client/pkg/model"
 	"github.com/orda-io/orda/client/pkg/operations"
 	"github.com/orda-io/orda/client/pkg/vf"
@@ -14,19 +16,24 @@ import (
 const dtPkg = "(*github.com/orda-io/orda/client/pkg/internal/datatypes."
 
 func VF_C20_Goroutines() {
+	kindA := vf.Choice("a", 3)
+	kindB := vf.Choice("b", 4)
+	if kindA == 2 && kindB != 3 {
+		vf.Assume(false) // the failing transaction is paired with the background sync only (bound)
+	}
 	n := 2
-	if vf.Tier() == 1 {
-		n = 3
+	if vf.Tier() == 1 && kindA != 2 && kindB != 3 {
+		n = 3 // the pairs with a background sync stay at two preemptions (path count)
 	}
 	vf.Preemptions(n)
 	for _, f := range []string{"TransactionDatatype).BeginTransaction", "TransactionDatatype).EndTransaction", "TransactionDatatype).unlock",
 		"TransactionDatatype).setTransactionContextAndLock", "TransactionDatatype).SentenceInTx", "TransactionDatatype).DoTransaction",
-		"BaseDatatype).executeLocalBase", "WiredDatatype).DeliverTransaction"} {
+		"BaseDatatype).executeLocalBase", "WiredDatatype).DeliverTransaction", "WiredDatatype).ApplyPushPullPack",
+		"TransactionDatatype).ResetTransaction", "TransactionDatatype).Rollback"} {
 		vf.PreemptIn(dtPkg + f)
 	}
 	c := vfNewCounter()
-	kindA := vf.Choice("a", 2)
-	kindB := vf.Choice("b", 3)
+	c.SetState(model.StateOfDatatype_SUBSCRIBED)
 	vf.Tag("kinds", string(rune('0'+kindA))+string(rune('0'+kindB)))
 	// a foreign operation that may be applied concurrently
 	src := vfNewCounter()
@@ -47,6 +54,15 @@ func VF_C20_Goroutines() {
 			})
 		case 2:
 			_, _ = c.ReceiveRemoteModelOperations(foreign, false)
+		case 3: // the answer of a background sync that carries no operations (a plain acknowledgement)
+			c.ApplyPushPullPack(&model.PushPullPack{Key: c.GetKey(), DUID: c.GetDUID(), Type: model.TypeOfDatatype_COUNTER,
+				CheckPoint: &model.CheckPoint{Sseq: 0, Cseq: 0}})
+		case 4: // a transaction whose body fails after one call: all or nothing
+			_ = c.Transaction("t", func(tx CounterInTx) error {
+				_, _ = tx.IncreaseBy(delta)
+				vf.Yield()
+				return errors.New("body failed")
+			})
 		}
 	}
 	count := func(kind int, delta int32) {
@@ -60,6 +76,9 @@ func VF_C20_Goroutines() {
 		case 2:
 			want += 100
 		}
+	}
+	if kindA == 2 {
+		kindA = 4
 	}
 	count(kindA, 1)
 	count(kindB, 10)
